@@ -92,6 +92,9 @@ impl DodecahedronProjection {
 
     /// Unprojects face coordinates to spherical coordinates using dodecahedron projection
     pub fn inverse(&mut self, face: Face, origin_id: OriginId) -> Result<Spherical, String> {
+        if (origin_id as usize) >= get_origins().len() {
+            return Err("Invalid origin ID".to_string());
+        }
         #[cfg(feature = "verif")]
         crate::verif::yield_point(crate::verif::site::INV_ENTRY);
         let polar = to_polar(face);
